@@ -246,4 +246,6 @@ def run(chk, ctx):
     r1(chk, ctx)
     r2_r3(chk, ctx)
     r4(chk, ctx)
+    from . import round3
+    round3.reply_size_on_received_text(chk, ctx)
     chk.assume("len() of a str counts characters (code points), which is what the service quota counts")
